@@ -154,6 +154,13 @@ def _detect_alleles(variants, var_progress, first, bam_read):
             # It is an insertion in front of a non-insertion variant, that must be ignored
             # We cannot skip I-Op in general, because this might overlook insertion variants
             if cigar_op == 1 and ref_len > 0:
+                if any(len(alt) > ref_len for alt in variants[var_id].get_alt_allele_list()):
+                    # The inserted bases may belong to an insertion allele of this (multi-allelic or complex)
+                    # variant whose common anchor base was stripped by normalization: the allele tracker
+                    # (matches first, then inserted bases) cannot follow it, so do not judge the variant at all
+                    # instead of calling the reference allele
+                    j += 1
+                    continue
                 break
             # Special case: If a D-Op sees an insertion variant, skip this variant to be conform
             # with old implementation. Actually, it would be correct to assume ref allele here,
